@@ -416,7 +416,10 @@ class AddonManager:
                     # async handlers don't chain.
                     return None
                 hook_func = _wrapper
-            return hook_func(*args, **kwargs)
+            ret = hook_func(*args, **kwargs)
+            # Test the result in here, a value that can't be truth-tested (numpy arrays...)
+            # is the addon's failure just like an exception in the hook itself is
+            return ret if ret else None
         except:
             logging.exception("Exploded in %r's %s hook" % (addon, hook_name))
             if not cls._SWALLOW_ADDON_EXCEPTIONS:
